@@ -416,7 +416,7 @@ pub fn rand_f64(r: &mut Rng, u: Unit) -> f64 {
         }
         7 | 8 => {
             // thresholds +- ulps
-            let t = *r.pick(&[i64::MAX as f64 / f, MAX_NS as f64 / f, f64::MAX / f, 9007199254740992.0 / f, NPC as f64 / f, 1.0 / f, 0.5 / f]);
+            let t = *r.pick(&[i64::MAX as f64 / f, MAX_NS as f64 / f, f64::MAX / f, 9007199254740992.0 / f, NPC as f64 / f, 1.0 / f, 0.5 / f, u64::MAX as f64 / f, u32::MAX as f64 / f, i128::MAX as f64 / f, 1e18 / f, 1e19 / f]);
             let t = f64::from_bits((t.to_bits() as i64 + r.range_i64(-3, 3)) as u64);
             if r.bool() {
                 t
@@ -453,7 +453,10 @@ pub fn run(cfg: &Cfg, rep: &mut Rep) {
             break;
         }
         let f = factor_f64(u);
-        for t in [0.0, 1.0, 0.5, 1e-9, i64::MAX as f64 / f, MAX_NS as f64 / f, f64::MAX / f, 9007199254740992.0 / f, NPC as f64 / f, 1.0 / f, f64::MAX, f64::MIN_POSITIVE, 5e-324, f64::INFINITY, f64::NAN] {
+        // (round 11: every machine width a nanosecond count can be cast to - 2^31, 2^32, 2^62, 2^64, 2^65, 2^96, 2^127, 2^128 -
+        // and the decimal 10^18, 10^19, each as "the value whose product is the threshold" +-3 ulp)
+        let p2 = |k: i32| 2f64.powi(k);
+        for t in [0.0, 1.0, 0.5, 1e-9, i64::MAX as f64 / f, MAX_NS as f64 / f, f64::MAX / f, 9007199254740992.0 / f, NPC as f64 / f, 1.0 / f, f64::MAX, f64::MIN_POSITIVE, 5e-324, f64::INFINITY, f64::NAN, p2(31) / f, p2(32) / f, p2(62) / f, p2(64) / f, p2(65) / f, p2(96) / f, p2(127) / f, p2(128) / f, 1e18 / f, 1e19 / f, 2.0 * NPC as f64 / f, 3.0 * NPC as f64 / f] {
             for d in -3i64..=3 {
                 for sgn in [1.0, -1.0] {
                     i += 1;
